@@ -53,12 +53,16 @@ class Val:
     def __init__(self, rng):
         self.rng = rng
 
-    def gen(self, t):
-        """returns (js literal, [leaf bytes or None]) ; leaf = (bytes|None)"""
+    def gen(self, t, zero=False):
+        """returns (js literal, [leaf bytes or None]) ; leaf = (bytes|None).  zero: use 0 / false / 0n (a present-but-falsy value)"""
         k = t["k"]
         if k == "prim":
             p = t["p"]
             v = PRIM_VALUE[p]
+            if zero:
+                v = 0.0 if p in ("f32", "f64") else 0
+                js = "0n" if p in ("i64", "u64") else ("false" if p == "bool" else "0")
+                return js, [struct.pack(PRIM_FMT[p], v)]
             if p in ("i64", "u64"):
                 js = "%dn" % v
             elif p == "bool":
@@ -80,8 +84,9 @@ class Val:
                 leaves += lv
             return "{%s}" % ", ".join(parts), leaves
         if k == "opt":
-            js, lv = self.gen(t["t"])
-            if self.rng.random() < 0.3:
+            # Some(0) / Some(false) are present values: a binding that tests the payload for truthiness loses them
+            js, lv = self.gen(t["t"], zero=(t["t"]["k"] == "prim" and self.rng.random() < 0.45))
+            if self.rng.random() < 0.25:
                 return "null", [None] * len(lv) + [b"\x00"]
             return js, lv + [b"\x01"]
         raise ValueError(k)
